@@ -182,6 +182,17 @@ theorem waiter_not_before_done_group (n waiters : Nat) (script : List Step) (s :
   intro r hr
   rw [← hn]; exact h3 r hr
 
+/-- A waiter on `Producer.Launch` does not return before the execution whose value it carries has
+    finished: the (i+1)-th waiter to be served returns only when at least i+1 background executions
+    have ended (the one that ended the stream, for a waiter that gets io.EOF). -/
+theorem waiter_not_before_done_producer (waiters : Nat) (script : List Step) (s : PlS)
+    (h : plM.Reachable (plInit waiters script) s) : ∀ r ∈ s.rets, r.idx + 1 ≤ r.fin :=
+  (plInv_reachable waiters script s h).2
+
+example : (plM.run (plInit 2 [{ res := .ret 1 [] }, { res := .ret 0 [.user 1] }]) [.fnEnd, .recv, .fnEnd, .recvClosed]).map
+    (fun s => s.rets.map (fun r => (r.res, r.idx, r.fin))) = some [(.ret 0 [.user 1, .eof], 1, 2), (.ret 1 [], 0, 1)] := by
+  decide
+
 example : (bgM.run (bgInit true false 2 [{ res := .ret 0 [.user 1] }]) [.begin, .fnEnd, .send, .close, .waitRet]).map
     (fun s => s.rets.map (·.res)) = some [.zero, .ret 0 [.user 1]] := by decide
 
